@@ -205,6 +205,10 @@ def ref_compare(toks, text, nat):
             if (n[1], n[3]) != (start[1], start[3]): return ("positions differ", k, n, start)
             e = offset(n[2], n[4])
             if e is None or e <= i or e > len(text): return ("positions differ", k, n, ("Error", "end offset", e))
+            # whatever the error token covers, its end position has to be a position of the text: the column may not lie beyond its line
+            # and the line has to be the one the offset is on
+            if e > (line_starts[n[2]] if n[2] < len(line_starts) else len(text)) or n[2] != 1 + text[:e].count("\n") - (1 if False else 0) and not (e > 0 and text[e - 1] == "\n" and n[2] == text[:e].count("\n") + 1):
+                return ("positions differ", k, n, ("Error", "end position is not on line %d" % n[2], e))
             if b is not None and not (b[2] == "String" or True): pass
             i = e; k += 1; continue
         if b is None: return ("token kinds differ", k, n, ("Error",))
